@@ -209,6 +209,25 @@ def analyse(ctx, b):
     return finals
 
 
+def rule_exit(ctx, rep, rid="R-C13-exit"):
+    # main: exit status is the command's result
+    r_e = rep.rule(rid, "main returns the selected command's Result unchanged (exit status = command result)", floor=4, floor_what="command arms")
+    mb = [b for b in ctx.prog.bodies.values() if b.f["crate"] == "ironplcc" and norm(b.id) == "ironplcc::main"]
+    if not mb:
+        rep.error(rid, "ironplcc::main not found")
+    else:
+        b = mb[0]
+        for callee in (CLI + "check", CLI + "echo", CLI + "tokenize", "ironplcc::lsp::start"):
+            cs = [c for c in b.calls() if c.callee == callee]
+            inst = "main|%s" % callee.split("::", 1)[1]
+            if len(cs) != 1:
+                r_e.finding(inst + "|calls=%d" % len(cs), "%s:%d" % (b.f["file"], b.f["line"]), "command not called exactly once from main")
+            elif cs[0].dest != [0, []]:
+                r_e.finding(inst + "|result-not-returned", loc_str(b.f, cs[0].loc), "the command's Result is not written to main's return place")
+            else:
+                r_e.ok(inst, loc_str(b.f, cs[0].loc))
+
+
 def rule_pushadds(ctx, rep, rid="R-C13-pushadds"):
     """A file named on the command line is either in the project or an error: FileBackedProject::push has no way to say Ok without having
     added the file.  A `return Ok(())` for files push decides not to read (an extension table, a size limit) makes `echo F` / `tokenize F` /
@@ -337,22 +356,7 @@ def run(ctx, rep):
     if not found:
         rep.error("R-C13-swallow", "no call of codespan_reporting::term::emit found")
 
-    # main: exit status is the command's result
-    r_e = rep.rule("R-C13-exit", "main returns the selected command's Result unchanged (exit status = command result)", floor=4, floor_what="command arms")
-    mb = [b for b in ctx.prog.bodies.values() if b.f["crate"] == "ironplcc" and norm(b.id) == "ironplcc::main"]
-    if not mb:
-        rep.error("R-C13-exit", "ironplcc::main not found")
-    else:
-        b = mb[0]
-        for callee in (CLI + "check", CLI + "echo", CLI + "tokenize", "ironplcc::lsp::start"):
-            cs = [c for c in b.calls() if c.callee == callee]
-            inst = "main|%s" % callee.split("::", 1)[1]
-            if len(cs) != 1:
-                r_e.finding(inst + "|calls=%d" % len(cs), "%s:%d" % (b.f["file"], b.f["line"]), "command not called exactly once from main")
-            elif cs[0].dest != [0, []]:
-                r_e.finding(inst + "|result-not-returned", loc_str(b.f, cs[0].loc), "the command's Result is not written to main's return place")
-            else:
-                r_e.ok(inst, loc_str(b.f, cs[0].loc))
+    rule_exit(ctx, rep)
     rule_pushadds(ctx, rep)
     from rules import c13_dir, c13_nonempty, c13_emitall
     c13_dir.run(ctx, rep)
